@@ -51,6 +51,9 @@ type c09Cfg struct {
 	lookahead bool // GC mode of the datastore book
 	alphabet  string
 	depth     int
+	// frac: the clock does not stand on a whole second (epoch + 990 ms) and the alphabet has an advance that ends inside
+	// the last second of a Temp lifetime: expiries that a store rounds to whole seconds become visible
+	frac bool
 }
 
 func (c c09Cfg) String() string {
@@ -58,7 +61,11 @@ func (c c09Cfg) String() string {
 	if c.lookahead {
 		gc = "lookahead"
 	}
-	return fmt.Sprintf("peers=%d cap=%d cache=%d gc=%s alphabet=%s depth=%d", c.peers, c.cap, c.cache, gc, c.alphabet, c.depth)
+	clk := ""
+	if c.frac {
+		clk = " clock=fractional"
+	}
+	return fmt.Sprintf("peers=%d cap=%d cache=%d gc=%s alphabet=%s depth=%d%s", c.peers, c.cap, c.cache, gc, c.alphabet, c.depth, clk)
 }
 
 const c09Lookahead = 30 * time.Minute
@@ -158,6 +165,9 @@ type c09Inst struct {
 
 func c09New(cfg c09Cfg) *c09Inst {
 	in := &c09Inst{cfg: cfg, clk: &c09Clock{now: c09Epoch}}
+	if cfg.frac {
+		in.clk.now = c09Epoch.Add(990 * time.Millisecond)
+	}
 	in.mem = pstoremem.NewAddrBook(pstoremem.WithClock(in.clk), pstoremem.WithMaxAddressesPerPeer(cfg.cap))
 	in.store = dssync.MutexWrap(ds.NewMapDatastore())
 	ab, err := NewAddrBook(context.Background(), in.store, cfg.dsOpts(in.clk))
